@@ -27,7 +27,7 @@ const (
 )
 
 type C04Weights struct {
-	Corrupt, Delete, Scrub, Beat, Check, Health, Detect, Pop int
+	Corrupt, Delete, Scrub, Beat, Check, Health, Detect, Pop, Hopeless int
 }
 
 type c04Task struct {
@@ -68,7 +68,7 @@ func NewC04(d *Driver) *C04 {
 	c := &C04{D: d, Killed: map[core.TractID]bool{}, Repulled: map[core.TractID]bool{},
 		recs: map[int]*curator.VerifRecovery{}, reported: map[int]map[core.TractID]map[int]bool{},
 		lastDur: map[core.TractID]curator.VerifTractState{}, prev: map[int]map[core.TractID]c04Rep{}, tasks: map[int]*c04Task{},
-		W: C04Weights{Corrupt: 5, Delete: 4, Scrub: 8, Beat: 8, Check: 5, Health: 2, Detect: 8, Pop: 14}}
+		W: C04Weights{Corrupt: 5, Delete: 4, Scrub: 8, Beat: 8, Check: 5, Health: 2, Detect: 8, Pop: 14, Hopeless: 2}}
 	d.Extra = c.extra
 	c.ensure()
 	return c
@@ -722,6 +722,24 @@ func (c *C04) extra(d *Driver) []Action {
 			}
 		}})
 	}
+	if len(dts) > 0 && len(d.tasks) < 3 {
+		// somebody insists on a repair with EVERY host declared bad, while spare servers have room
+		acts = append(acts, Action{w.Hopeless, func() {
+			t := dts[d.R.Intn(len(dts))]
+			st := d.Cl.D.Tract(d.tractID(t[0], t[1]))
+			if len(st.Hosts) == 0 || d.lockLoad(t[0], t[1]) >= 2 {
+				return
+			}
+			var bad []int
+			for _, h := range st.Hosts {
+				bad = append(bad, int(h))
+			}
+			sort.Ints(bad)
+			d.Cl.SetEligible(d.Cl.Cur, nil)
+			d.StartReplicate(t[0], t[1], bad)
+			c.Poll()
+		}})
+	}
 	acts = append(acts, Action{w.Beat, func() { c.Beat(d.R.Range(1, nts)) }})
 	acts = append(acts, Action{w.Health, func() {
 		ts := d.R.Range(1, nts)
@@ -747,4 +765,18 @@ func (c *C04) popSafe() bool {
 		}
 	}
 	return true
+}
+
+// CheckAllReplicas = Driver.CheckAllReplicas as a pure observer: the monitor's direct reads of corrupt
+// replicas must not show up in the tractservers' failure reports.
+func (c *C04) CheckAllReplicas() {
+	c.ensure()
+	var saved []map[core.TractID]core.Error
+	for i := 1; i < len(c.D.Cl.TS); i++ {
+		saved = append(saved, tractserver.C04FailSnapshot(c.D.Cl.TS[i]))
+	}
+	c.D.CheckAllReplicas()
+	for i := 1; i < len(c.D.Cl.TS); i++ {
+		tractserver.C04FailRestore(c.D.Cl.TS[i], saved[i-1])
+	}
 }
